@@ -78,11 +78,19 @@ def array_spec(draw, size, dtype, fuzzy=False, pool=None, mask_kind=None, payloa
     data = draw(st.lists(elems, min_size=size, max_size=size))
     if dtype.startswith("int"):
         data = [int(x) for x in data]
+    elif dtype == "float32":
+        import numpy as _np
+
+        data = [float(_np.float32(x)) for x in data]  # keep the spec exactly representable in single precision
     else:
         data = [float(x) for x in data]
     mask = draw(mask_for(size, mask_kind))
     if mask is not None and payload:
         payloads = INT_PAYLOADS if dtype.startswith("int") else FLOAT_PAYLOADS
+        if dtype == "int32":
+            payloads = [x for x in payloads if abs(x) < 2 ** 31]
+        if dtype == "float32":
+            payloads = [x for x in payloads if not (abs(x) > 3e38 and abs(x) != float("inf"))]
         for i, m in enumerate(mask):
             if m:
                 data[i] = draw(st.sampled_from(payloads + ([data[0]] if data else [])))
